@@ -563,6 +563,8 @@ Definition strided (vs : list Z) (stp : Z) : list Z :=
    self.read_data(offset, length)[::step] *)
 Definition slice_plan (n : Z) (start stop stp : option Z) : option (option (Z * Z * Z)) :=
   if match stp with Some 0 => true | _ => false end then None else
+  (* if self._length == 0: return np.empty(...)   (repair D14, /repo 3e0d41d) *)
+  if n =? 0 then Some None else
   let stp := match stp with Some x => x | None => 1 end in
   let start := match start with Some x => x | None => if 0 <? stp then 0 else -1 end in
   let stop := match stop with Some x => x | None => if 0 <? stp then n else -1 - n end in
